@@ -1,4 +1,5 @@
 import Hms.Check.Typing
+import HmsProofs.Lemmas.CheckCompat
 /-! Basic facts about the pieces of the checker (C03). -/
 namespace HmsProofs.Lemmas.Check
 open Hms.Check
@@ -13,14 +14,19 @@ theorem wrap_of_ok {s : Bool} {r : Res} (h : anyOK s r.ty = true) :
     wrap s r = { r with ex := r.ex || r.ty.isNever } := by
   unfold wrap; simp [h]
 
-theorem tcErr_nil {a : Bool} {g e : Ty} {rule : Rule} (h : tcErr a g e rule = []) : typeCheck a g e = none := by
+theorem compat_iff {a : Bool} {g e : Ty} : Compat a g e ↔ typeCheck a g e = none := (typeCheck_iff e a g).symm
+
+theorem tcErr_nil' {a : Bool} {g e : Ty} {rule : Rule} (h : tcErr a g e rule = []) : typeCheck a g e = none := by
   unfold tcErr at h
   split at h
   · simp at h
   · assumption
 
-theorem tcErr_of_compat {a : Bool} {g e : Ty} {rule : Rule} (h : typeCheck a g e = none) : tcErr a g e rule = [] := by
-  unfold tcErr; simp [h]
+theorem tcErr_nil {a : Bool} {g e : Ty} {rule : Rule} (h : tcErr a g e rule = []) : Compat a g e :=
+  compat_iff.mpr (tcErr_nil' h)
+
+theorem tcErr_of_compat {a : Bool} {g e : Ty} {rule : Rule} (h : Compat a g e) : tcErr a g e rule = [] := by
+  unfold tcErr; simp [compat_iff.mp h]
 
 theorem loopBodyErr_nil {t : Ty} (h : loopBodyErr t = []) : loopBodyOK t = true := by
   unfold loopBodyErr at h
@@ -49,14 +55,13 @@ theorem letVarTy_sound {ann : Option PTy} {t : Ty} (h : (letVarTy ann t).1 = [])
       simp only [htc] at h ⊢
       have : convertType true a = ([], (convertType true a).2) := by
         cases hc : convertType true a; simp_all
-      exact LetTy.annotated this htc
+      exact LetTy.annotated this (compat_iff.mpr htc)
 
 theorem letVarTy_complete {ann : Option PTy} {t vt : Ty} (h : LetTy ann t vt) : letVarTy ann t = ([], vt) := by
   cases h with
   | plain ha => simp [letVarTy, ha]
   | annotated hc htc =>
     simp only [letVarTy, hc]
-    simp only [Compat] at htc
-    simp [htc]
+    simp [compat_iff.mp htc]
 
 end HmsProofs.Lemmas.Check
